@@ -5,12 +5,18 @@ import RbV.Lemmas.C14
 Objects (see `RbV/Spec/Hmm.lean`, `RbV/Model/Hmm.lean`): weights are natural-number numerators over a common
 denominator; `paths S T` = all state paths, `joint m obs π` = initial · ∏ transition · ∏ emission · end,
 `likelihood` = Σ over all paths, `viterbiVal` = max over all paths.  The mirror models `viterbi`, `forward`,
-`backward`, `backwardLit` follow `src/stats/hmm/mod.rs`; `viterbiE` additionally applies the end weights
-(the Rust `viterbi` does not — finding C14-viterbi-ignores-end).
+`backward`, `backwardLit` follow `src/stats/hmm/mod.rs`.  `viterbi` is the code as it stands after the repair
+of C14-viterbi-ignores-end (/repo 29abcf2): `viterbi_matrices` (no end weights, zero-aware comparator), then
+the end weights on the last column iff `has_end_state()`, then `viterbi_traceback` (last maximum wins).
+`viterbiWith sel pick` is the same recursion for any predecessor selector and any arg-max of the last column;
+`viterbiE` (plain arg-max, last maximum) is the oracle of the driver (`RbV/Drv/C14.lean`), which also uses
+`forward` and `joint`.
 
-All theorems hold for every model (any number of states ≥ 1, arbitrary weights: zeros, ties,
-sub-stochastic rows) and every non-empty observation sequence — no size bound.
-The driver (`RbV/Drv/C14.lean`) uses `viterbiE`, `forward`, `joint` as oracles.
+All theorems hold for every model (any number of states ≥ 1, arbitrary weights: zeros, ties, sub-stochastic
+rows, with or without end vector) and every non-empty observation sequence — no size bound.  Theorems about the
+code mirror `viterbi` assume `Hmm.WF`: a model that does not declare an end state has end weight 1 (true of
+every model the constructors `with_float` / `with_prob` / `discrete_emission::Model::new` build; vacuous for a
+model with `has_end_state()`).
 -/
 namespace RbV.Thm.C14
 open RbV.Hmm
@@ -45,33 +51,86 @@ theorem zero_aware_max (c t : Nat → Nat) (n : Nat) (hn : 0 < n) :
     selZ c t n < n ∧ ∀ k, k < n → c k * t k ≤ c (selZ c t n) * t (selZ c t n) :=
   isArgmax_selZ c t n hn
 
-/-- any selector with that property gives a correct Viterbi algorithm (so a different valid tie-break in the
-code keeps the property) -/
-theorem viterbi_max_any_selector (sel : Sel) (hsel : IsArgmax sel) (m : Hmm) (obs : List Nat) (hS : 0 < m.S)
+/-- any predecessor selector with that property and any arg-max of the last column give a correct Viterbi
+algorithm (so a different valid tie-break anywhere in the code keeps the property) -/
+theorem viterbi_max_any_selector (sel : Sel) (hsel : IsArgmax sel) (pick : Pick) (hpick : IsPick pick) (m : Hmm)
+    (obs : List Nat) (hS : 0 < m.S) (h : obs ≠ []) :
+    (viterbiWith sel pick m obs).1 ∈ paths m.S obs.length ∧
+    joint m obs (viterbiWith sel pick m obs).1 = (viterbiWith sel pick m obs).2 ∧
+    ∀ π ∈ paths m.S obs.length, joint m obs π ≤ (viterbiWith sel pick m obs).2 :=
+  viterbiWith_spec hsel hpick m hS obs h
+
+/-- **tie-breaks do not matter**: two runs with different valid tie-breaks (among predecessors: `sel`, in the
+last column: `pick` — e.g. "last maximum wins" of `max_by` / `max_by_key` versus "first maximum wins") may
+return different paths, but both paths have the same joint weight, which both runs report, and it is the
+maximum over all state paths. -/
+theorem viterbi_tiebreak_irrelevant (sel sel' : Sel) (hsel : IsArgmax sel) (hsel' : IsArgmax sel')
+    (pick pick' : Pick) (hpick : IsPick pick) (hpick' : IsPick pick') (m : Hmm) (obs : List Nat) (hS : 0 < m.S)
     (h : obs ≠ []) :
-    (viterbiWith sel m obs).1 ∈ paths m.S obs.length ∧
-    joint m obs (viterbiWith sel m obs).1 = (viterbiWith sel m obs).2 ∧
-    ∀ π ∈ paths m.S obs.length, joint m obs π ≤ (viterbiWith sel m obs).2 :=
-  viterbiWith_spec hsel m hS obs h
+    joint m obs (viterbiWith sel pick m obs).1 = joint m obs (viterbiWith sel' pick' m obs).1 ∧
+    (viterbiWith sel pick m obs).2 = (viterbiWith sel' pick' m obs).2 ∧
+    (viterbiWith sel pick m obs).2 = viterbiVal m obs := by
+  obtain ⟨hp, hj, hub⟩ := viterbiWith_spec hsel hpick m hS obs h
+  obtain ⟨hp', hj', hub'⟩ := viterbiWith_spec hsel' hpick' m hS obs h
+  have h1 := hub' _ hp
+  have h2 := hub _ hp'
+  refine ⟨by omega, by omega, ?_⟩
+  apply Nat.le_antisymm
+  · rw [← hj]; exact le_maxL_of_mem (List.mem_map.mpr ⟨_, hp, rfl⟩)
+  · apply maxL_le
+    intro a ha
+    obtain ⟨π, hπ, rfl⟩ := List.mem_map.mp ha
+    exact hub π hπ
 
-/-- **the code mirror** (`viterbi_matrices` + `viterbi_traceback`, which never look at the end weights) is
-Viterbi for the model *without* end term: path and value are optimal for `joint m.noEnd`. -/
-theorem viterbi_code_max (m : Hmm) (obs : List Nat) (hS : 0 < m.S) (h : obs ≠ []) :
-    (viterbi m obs).1 ∈ paths m.S obs.length ∧
-    joint m.noEnd obs (viterbi m obs).1 = (viterbi m obs).2 ∧
-    ∀ π ∈ paths m.S obs.length, joint m.noEnd obs π ≤ (viterbi m obs).2 := by
-  rw [viterbi_eq_viterbiWith_noEnd]
-  exact viterbiWith_spec isArgmax_selZ m.noEnd hS obs h
+/-- `max_by_key` ("last maximum wins", the code) and "first maximum wins" are both valid arg-max choices -/
+theorem last_and_first_maximum_valid : IsPick argmaxLast ∧ IsPick argmaxFirst :=
+  ⟨isPick_argmaxLast, isPick_argmaxFirst⟩
 
-/-- for a model without explicit end probabilities the code mirror satisfies the property -/
-theorem viterbi_code_max_of_no_end (m : Hmm) (obs : List Nat) (hS : 0 < m.S) (h : obs ≠ [])
-    (hfin : m.fin = fun _ => 1) :
+/-- **the end term is added after the matrix is complete** (`hmm::viterbi`, the repaired statement): running the
+literal `viterbi_traceback` on the matrices of `viterbi_matrices` whose *last value column* was multiplied by the
+end weights equals the traceback that weights the last column by the end weights before its arg-max.  The
+back-pointer columns are untouched, i.e. they were chosen without the end term; that this is still optimal
+(`viterbi_code_max`) rests on the end term depending on the last state only. -/
+theorem viterbi_end_after_matrix (m : Hmm) (hS : 0 < m.S) (col : List Nat) (mats : List (List Nat × List Nat)) :
+    traceback m.S (addEnd m col mats).1 (addEnd m col mats).2 = tracebackW argmaxLast m.S m.fin col mats ∧
+    (addEnd m col mats).2.map (·.2) = mats.map (·.2) :=
+  ⟨traceback_addEnd m hS mats col, addEnd_ptrs m mats col⟩
+
+/-- **the code mirror** (`viterbi_matrices` with the zero-aware comparator; end weights on the last column iff
+`has_end_state()`; `viterbi_traceback`) satisfies the property for **every** model, with or without end vector:
+the returned path is a state path, its joint weight is the reported value, no state path has a larger one. -/
+theorem viterbi_code_max (m : Hmm) (obs : List Nat) (hS : 0 < m.S) (hwf : m.WF) (h : obs ≠ []) :
     (viterbi m obs).1 ∈ paths m.S obs.length ∧
     joint m obs (viterbi m obs).1 = (viterbi m obs).2 ∧
-    ∀ π ∈ paths m.S obs.length, joint m obs π ≤ (viterbi m obs).2 := by
-  have : m.noEnd = m := by cases m; simp only [Hmm.noEnd] at *; simp [hfin]
-  have := this ▸ viterbi_code_max m obs hS h
-  exact this
+    ∀ π ∈ paths m.S obs.length, joint m obs π ≤ (viterbi m obs).2 :=
+  viterbi_spec m hS hwf obs h
+
+/-- … hence the value the code mirror reports is the maximum over all state paths, and it is the value of the
+driver's oracle `viterbiE` -/
+theorem viterbi_code_value_eq_max (m : Hmm) (obs : List Nat) (hS : 0 < m.S) (hwf : m.WF) (h : obs ≠ []) :
+    (viterbi m obs).2 = viterbiVal m obs ∧ (viterbi m obs).2 = (viterbiE m obs).2 := by
+  obtain ⟨hp, hj, hub⟩ := viterbi_spec m hS hwf obs h
+  have hv : (viterbi m obs).2 = viterbiVal m obs := by
+    apply Nat.le_antisymm
+    · rw [← hj]; exact le_maxL_of_mem (List.mem_map.mpr ⟨_, hp, rfl⟩)
+    · apply maxL_le
+      intro a ha
+      obtain ⟨π, hπ, rfl⟩ := List.mem_map.mp ha
+      exact hub π hπ
+  exact ⟨hv, by rw [hv, viterbi_value_eq_max m obs hS h]⟩
+
+/-- the code mirror against any other valid pair of tie-breaks (e.g. the harmless rewrite "first maximum wins" in
+`viterbi_traceback`, or a plain arg-max instead of the zero-aware comparator): possibly another path, same joint
+weight, same reported value -/
+theorem viterbi_code_tiebreak (sel : Sel) (hsel : IsArgmax sel) (pick : Pick) (hpick : IsPick pick) (m : Hmm)
+    (obs : List Nat) (hS : 0 < m.S) (hwf : m.WF) (h : obs ≠ []) :
+    joint m obs (viterbi m obs).1 = joint m obs (viterbiWith sel pick m obs).1 ∧
+    (viterbi m obs).2 = (viterbiWith sel pick m obs).2 := by
+  obtain ⟨hp, hj, hub⟩ := viterbi_spec m hS hwf obs h
+  obtain ⟨hp', hj', hub'⟩ := viterbiWith_spec hsel hpick m hS obs h
+  have h1 := hub' _ hp
+  have h2 := hub _ hp'
+  exact ⟨by omega, by omega⟩
 
 /-- **forward** = Σ over all state paths of the joint weight -/
 theorem forward_sum (m : Hmm) (obs : List Nat) (h : obs ≠ []) : forward m obs = likelihood m obs :=
@@ -90,49 +149,78 @@ theorem backward_loop_sum (m : Hmm) (obs : List Nat) (h : obs ≠ []) : backward
 theorem forward_eq_backward (m : Hmm) (obs : List Nat) (h : obs ≠ []) : forward m obs = backward m obs := by
   rw [forward_sum m obs h, backward_sum m obs h]
 
-/-- the likelihood is never smaller than the Viterbi value -/
-theorem viterbi_le_likelihood (m : Hmm) (obs : List Nat) (hS : 0 < m.S) (h : obs ≠ []) :
-    (viterbiE m obs).2 ≤ forward m obs := by
-  obtain ⟨hp, hj, _⟩ := viterbiE_spec m hS obs h
-  rw [forward_sum m obs h, ← hj]
-  exact le_sum_of_mem (List.mem_map.mpr ⟨_, hp, rfl⟩)
+/-- the likelihood is never smaller than the Viterbi value (code mirror, every model) -/
+theorem viterbi_le_likelihood (m : Hmm) (obs : List Nat) (hS : 0 < m.S) (hwf : m.WF) (h : obs ≠ []) :
+    (viterbi m obs).2 ≤ forward m obs ∧ (viterbiE m obs).2 ≤ forward m obs := by
+  obtain ⟨hp, hj, _⟩ := viterbi_spec m hS hwf obs h
+  have h1 : (viterbi m obs).2 ≤ forward m obs := by
+    rw [forward_sum m obs h, ← hj]
+    exact le_sum_of_mem (List.mem_map.mpr ⟨_, hp, rfl⟩)
+  exact ⟨h1, by rw [← (viterbi_code_value_eq_max m obs hS hwf h).2]; exact h1⟩
 
 /-- impossible observations (every path has joint weight 0) get likelihood 0 and Viterbi value 0 -/
-theorem impossible_zero (m : Hmm) (obs : List Nat) (hS : 0 < m.S) (h : obs ≠ [])
+theorem impossible_zero (m : Hmm) (obs : List Nat) (hS : 0 < m.S) (hwf : m.WF) (h : obs ≠ [])
     (himp : ∀ π ∈ paths m.S obs.length, joint m obs π = 0) :
-    forward m obs = 0 ∧ backward m obs = 0 ∧ (viterbiE m obs).2 = 0 := by
+    forward m obs = 0 ∧ backward m obs = 0 ∧ (viterbi m obs).2 = 0 := by
   have hl : likelihood m obs = 0 := by
     unfold likelihood
     rw [sum_map_congr _ _ (fun _ => 0) himp, sum_map_zero]
   refine ⟨by rw [forward_sum m obs h, hl], by rw [backward_sum m obs h, hl], ?_⟩
-  have := viterbi_le_likelihood m obs hS h
+  have := (viterbi_le_likelihood m obs hS hwf h).1
   rw [forward_sum m obs h, hl] at this
   omega
 
-/-! ### non-vacuity and the recorded defect -/
+/-! ### non-vacuity -/
 
-/-- a 2-state model over denominator 10 with zeros and a tie -/
+/-- a 2-state model over denominator 10 with zeros, a tie and an end vector -/
 def exModel : Hmm :=
   { S := 2
     init := fun s => [5, 5].getD s 0
     trans := fun a b => ([[5, 5], [0, 10]].getD a []).getD b 0
     emit := fun s o => ([[2, 8], [8, 2]].getD s []).getD o 0
-    fin := fun s => [1, 3].getD s 0 }
+    fin := fun s => [1, 3].getD s 0
+    hasEnd := true }
+
+/-- both kinds of model are well-formed (hypothesis `WF` of the code-mirror theorems is satisfiable) -/
+example : exModel.WF := by intro h; cases h
+example : exModel.noEnd.WF := fun _ _ _ => rfl
 
 example : (viterbiE exModel [1, 0, 0]).1 = [0, 1, 1] ∧ (viterbiE exModel [1, 0, 0]).2 = 384000 := by decide
 example : viterbiVal exModel [1, 0, 0] = 384000 ∧ likelihood exModel [1, 0, 0] = 628000 := by decide
 example : forward exModel [1, 0, 0] = 628000 ∧ backward exModel [1, 0, 0] = 628000 := by decide
-example : (viterbi exModel [1, 0, 0]).2 = 128000 := by decide
+/-- the code mirror on the model with end vector (reports the joint weight *with* the end term) and on the
+same model without end vector -/
+example : viterbi exModel [1, 0, 0] = ([0, 1, 1], 384000) ∧ viterbi exModel.noEnd [1, 0, 0] = ([0, 1, 1], 128000) := by
+  decide
+example : viterbiVal exModel.noEnd [1, 0, 0] = (viterbi exModel.noEnd [1, 0, 0]).2 := by decide
 example : backwardLit exModel [1] = 70 ∧ backwardLit exModel [1, 0] = 7600 ∧ backwardLit exModel [1, 0, 0] = 628000 := by decide
 
-/-- hypothesis of `viterbi_code_max_of_no_end` is satisfiable: a model without end vector -/
-example : exModel.noEnd.fin = fun _ => 1 := rfl
-example : (viterbi exModel.noEnd [1, 0, 0]).1 = [0, 1, 1] ∧ viterbiVal exModel.noEnd [1, 0, 0] = (viterbi exModel.noEnd [1, 0, 0]).2 := by
-  decide
+/-- the end term changes the arg-max: without it the best path ends in state 0, with it in state 1; the
+back-pointers are the same in both runs (they never see the end term) -/
+def flipModel : Hmm :=
+  { S := 2
+    init := fun _ => 5
+    trans := fun _ _ => 5
+    emit := fun s o => ([[6, 4], [4, 6]].getD s []).getD o 0
+    fin := fun s => [1, 9].getD s 0
+    hasEnd := true }
+example : viterbi flipModel [0, 0] = ([0, 1], 5400) ∧ viterbi flipModel.noEnd [0, 0] = ([0, 0], 900) ∧
+    joint flipModel [0, 0] [0, 0] = 900 ∧ viterbiVal flipModel [0, 0] = 5400 := by decide
+example : (addEnd flipModel (col0 flipModel 0) (matFrom selZ flipModel (col0 flipModel 0) [0])).2.map (·.2)
+    = (matFrom selZ flipModel (col0 flipModel 0) [0]).map (·.2) := by decide
+
+/-- two valid tie-breaks, two different optimal paths, one value (hypotheses of `viterbi_tiebreak_irrelevant`) -/
+def tieModel : Hmm :=
+  { S := 2, init := fun _ => 1, trans := fun _ _ => 1, emit := fun _ _ => 1, fin := fun _ => 1, hasEnd := false }
+example : viterbiWith selZ argmaxLast tieModel [0, 0] = ([1, 1], 1) ∧
+    viterbiWith selLast argmaxFirst tieModel [0, 0] = ([1, 0], 1) ∧ viterbi tieModel [0, 0] = ([1, 1], 1) := by decide
+example : tieModel.WF := fun _ _ _ => rfl
 
 /-- hypothesis of `impossible_zero` is satisfiable: symbol 1 is never emitted -/
 def impModel : Hmm :=
-  { S := 2, init := fun _ => 1, trans := fun _ _ => 1, emit := fun _ o => if o = 0 then 2 else 0, fin := fun _ => 1 }
+  { S := 2, init := fun _ => 1, trans := fun _ _ => 1, emit := fun _ o => if o = 0 then 2 else 0, fin := fun _ => 1,
+    hasEnd := false }
+example : impModel.WF := fun _ _ _ => rfl
 example : ∀ π ∈ paths impModel.S [0, 1].length, joint impModel [0, 1] π = 0 := by decide
 example : forward impModel [0, 1] = 0 ∧ (viterbi impModel [0, 1]).2 = 0 ∧ forward impModel [0, 0] = 16 := by decide
 
@@ -140,17 +228,18 @@ example : forward impModel [0, 1] = 0 ∧ (viterbi impModel [0, 1]).2 = 0 ∧ fo
 example : selZ (fun k => [0, 3, 0].getD k 0) (fun k => [5, 0, 7].getD k 0) 3 = 1 ∧
           selLast (fun k => [0, 3, 0].getD k 0) (fun k => [5, 0, 7].getD k 0) 3 = 2 := by decide
 
-/-- one state, everything certain except the end probability 1/10 (DESIGN §10): the Rust `viterbi` (mirror
-`viterbi`) reports 10⁴/10⁴ = 1 for two observations although the only path has joint probability
-10⁴/10⁵ = 0.1 = the likelihood: the reported value is not the joint probability of the returned path and
-exceeds the likelihood. -/
-def oneState : Hmm := { S := 1, init := fun _ => 10, trans := fun _ _ => 10, emit := fun _ _ => 10, fin := fun _ => 1 }
+/-- regression witness of the repaired defect C14-viterbi-ignores-end (DESIGN §10: one state, everything certain
+except the end probability 1/10, two observations): the code mirror now reports 10⁴/10⁵ = 0.1 = the joint
+probability of the only path = the likelihood (before /repo 29abcf2 the code reported 1.0). -/
+def oneState : Hmm :=
+  { S := 1, init := fun _ => 10, trans := fun _ _ => 10, emit := fun _ _ => 10, fin := fun _ => 1, hasEnd := true }
+example : viterbi oneState [0, 0] = ([0, 0], 10 ^ 4) ∧ joint oneState [0, 0] [0, 0] = 10 ^ 4 ∧
+    forward oneState [0, 0] = 10 ^ 4 := by decide
 
-theorem viterbi_code_ignores_end :
-    (viterbi oneState [0, 0]).1 = [0, 0] ∧
-    -- reported value 10⁴ over 10⁴, joint weight of that path 10⁴ over 10⁵, likelihood 10⁴ over 10⁵
-    (viterbi oneState [0, 0]).2 = 10 ^ 4 ∧ joint oneState [0, 0] [0, 0] = 10 ^ 4 ∧ forward oneState [0, 0] = 10 ^ 4 ∧
-    -- as fractions: reported · 10⁴⁺¹ > likelihood · 10⁴
-    forward oneState [0, 0] * 10 ^ 4 < (viterbi oneState [0, 0]).2 * 10 ^ 5 := by decide
+/-- `WF` cannot be dropped: a model that carries end weights but does not declare them (only constructible with
+the raw `discrete_emission_opt_end::Model::new(…, end, false)`) is decoded without them -/
+def undeclared : Hmm := { oneState with fin := fun _ => 3, hasEnd := false }
+example : ¬ undeclared.WF ∧ (viterbi undeclared [0, 0]).2 = 10 ^ 4 ∧ joint undeclared [0, 0] [0, 0] = 3 * 10 ^ 4 := by
+  refine ⟨fun h => absurd (h rfl 0 (by decide)) (by decide), by decide, by decide⟩
 
 end RbV.Thm.C14
